@@ -533,6 +533,8 @@ type c18hist struct {
 	pPassFault int // per-mille probability of a compile-time fault injection
 	negIdx     bool
 	adjDup     bool
+	single     int // >0: inject exactly this compile-time fault once (otherwise valid history)
+	singleAt   int
 
 	gp64, gp32, gp16, gp8, xmm, ymm, kreg []reg.Register
 	derefs                                int
@@ -814,14 +816,14 @@ func (h *c18hist) genInstr(name string, wantValid bool, forceClasses []string, l
 }
 
 // rawNoBase adds, through Context.Instruction, a MOVQ whose memory operand has no base register.
-func (h *c18hist) rawNoBase() {
+func (h *c18hist) rawNoBase(force bool) {
 	dst := h.regOf("r64")
 	i, err := x86.MOVQ(operand.NewStackAddr(0), dst)
 	if err != nil {
 		panic(err)
 	}
 	var tok string
-	if h.r.chance(2, 3) {
+	if force || h.r.chance(2, 3) {
 		m := operand.Mem{Disp: 8}
 		i.Operands[0] = m
 		i.Inputs[0] = m
@@ -1522,17 +1524,42 @@ func (h *c18hist) genPressure(limits map[int]int) {
 	}
 }
 
+// genSingle injects the one compile-time fault of a "single" history.
+func (h *c18hist) genSingle(limits map[int]int) {
+	if !h.haveFn {
+		h.genFunction()
+	}
+	switch h.single {
+	case 1, 2, 3, 4:
+		h.labelFault(h.single - 1)
+	case 5:
+		h.rawNoBase(true)
+	case 6:
+		name := pick(h.r, []string{"ADDQ", "MOVQ", "LEAQ", "MOVUPS"})
+		h.genInstr(name, true, map[string][]string{
+			"ADDQ": {"mx0", "r64"}, "MOVQ": {"r64", "mx0"}, "LEAQ": {"mx0", "r64"}, "MOVUPS": {"mx0", "xmm"}}[name], "")
+	default:
+		h.pPassFault = 1000
+		h.genPressure(limits)
+		h.pPassFault = 0
+	}
+}
+
 // genLabelFault injects one label fault into the active function.
 func (h *c18hist) genLabelFault() {
 	if !h.haveFn {
 		h.genFunction()
 	}
-	h.lblN++
-	l := fmt.Sprintf("e%d", h.lblN)
 	k := h.r.intn(4)
 	if k == 3 && !h.adjDup {
 		k = h.r.intn(3)
 	}
+	h.labelFault(k)
+}
+
+func (h *c18hist) labelFault(k int) {
+	h.lblN++
+	l := fmt.Sprintf("e%d", h.lblN)
 	switch k {
 	case 0: // duplicate label
 		h.genInstr("JNE", true, nil, l)
@@ -1653,7 +1680,7 @@ func (h *c18hist) genOne(limits map[int]int) {
 		}
 	case w < 410:
 		if needFn() && r.intn(1000) < 200+h.pPassFault {
-			h.rawNoBase()
+			h.rawNoBase(false)
 		}
 	case w < 460:
 		if needFn() {
@@ -1722,7 +1749,9 @@ func (h *c18hist) genOne(limits map[int]int) {
 	case w < 935:
 		h.genPressure(limits)
 	case w < 937:
-		h.genImplicitOnly()
+		if h.r.chance(1, 4) {
+			h.genImplicitOnly()
+		}
 	case w < 952:
 		if h.pPassFault > 0 {
 			h.genLabelFault()
@@ -1731,6 +1760,136 @@ func (h *c18hist) genOne(limits map[int]int) {
 		if needFn() {
 			h.genInstr(pick(r, []string{"ADDQ", "MOVQ", "RET", "NOP", "XORL"}), true, nil, "")
 		}
+	}
+}
+
+// Fixed histories run first on every invocation: the witnesses of the listed
+// findings (regressions once repaired) and one plain case per fault kind.
+var c18scripts = []func(h *c18hist){
+	// ParamIndex(-1): must be an error component (reported at Load), not a panic
+	func(h *c18hist) {
+		h.scriptFn(&c18sig{params: []c18var{{"x", &c18ty{k: "int", size: 8}}}})
+		h.scriptRootIdx(false, -1)
+		h.loadStoreSlot(0, c18comp{&c18ty{k: "int", size: 8}, false}, false)
+		h.genInstr("RET", true, nil, "")
+	},
+	// ReturnIndex(-1)
+	func(h *c18hist) {
+		h.scriptFn(&c18sig{results: []c18var{{"", &c18ty{k: "uint", size: 4}}}})
+		h.scriptRootIdx(true, -1)
+		h.genInstr("RET", true, nil, "")
+	},
+	// Param("x").Index(-1) on an array: must be reported when loaded
+	func(h *c18hist) {
+		arr := &c18ty{k: "arr", n: 2, elem: &c18ty{k: "float", size: 8}}
+		h.scriptFn(&c18sig{params: []c18var{{"x", arr}}})
+		h.scriptRootName(false, "x", c18comp{arr, false})
+		h.scriptIndex(0, -1)
+		h.loadStoreSlot(1, c18comp{arr.elem, false}, false)
+		h.genInstr("RET", true, nil, "")
+	},
+	// valid function whose general purpose registers are all implicit: RDTSC; CDQ; RET
+	func(h *c18hist) {
+		h.scriptFn(nil)
+		h.genInstr("RDTSC", true, nil, "")
+		h.genInstr("CDQ", true, nil, "")
+		h.genInstr("RET", true, nil, "")
+	},
+	// the same label twice in a row (referenced)
+	func(h *c18hist) {
+		h.scriptFn(nil)
+		h.labelFault(3)
+	},
+	// one plain case per compile-time fault kind, and a valid history
+	func(h *c18hist) { h.scriptFn(nil); h.labelFault(0) },
+	func(h *c18hist) { h.scriptFn(nil); h.labelFault(1) },
+	func(h *c18hist) { h.scriptFn(nil); h.labelFault(2) },
+	func(h *c18hist) { h.scriptFn(nil); h.rawNoBase(true); h.genInstr("RET", true, nil, "") },
+	func(h *c18hist) {
+		h.scriptFn(nil)
+		h.genInstr("MOVQ", true, []string{"r64", "mx0"}, "")
+		h.genInstr("RET", true, nil, "")
+	},
+	func(h *c18hist) {
+		h.scriptFn(&c18sig{params: []c18var{{"x", &c18ty{k: "int", size: 8}}}, results: []c18var{{"r", &c18ty{k: "int", size: 8}}}})
+		h.scriptRootName(false, "x", c18comp{&c18ty{k: "int", size: 8}, false})
+		h.scriptRootName(true, "r", c18comp{&c18ty{k: "int", size: 8}, false})
+		h.genInstr("ADDQ", true, []string{"imm8", "r64"}, "")
+		h.genInstr("RET", true, nil, "")
+	},
+	// an instruction before any function
+	func(h *c18hist) { h.genInstr("RET", true, nil, ""); h.scriptFn(nil); h.genInstr("RET", true, nil, "") },
+}
+
+func (h *c18hist) scriptFn(s *c18sig) {
+	name := h.fnName()
+	h.op("fn", name)
+	h.call("Function", func() { h.a.Function(name) })
+	h.openFn()
+	if s != nil {
+		h.op(s.toks()...)
+		h.call("SignatureExpr", func() { h.a.SignatureExpr(s.goSrc()) })
+		h.sig = s
+	}
+}
+
+func (h *c18hist) scriptRootIdx(results bool, i int) {
+	var c gotypes.Component
+	if i < 0 {
+		h.f3a = true
+	}
+	if results {
+		h.op("ridx", itoa(i))
+		h.call("ReturnIndex", func() { c = h.a.ReturnIndex(i) })
+	} else {
+		h.op("pidx", itoa(i))
+		h.call("ParamIndex", func() { c = h.a.ParamIndex(i) })
+	}
+	h.pushComp(c, c18comp{})
+}
+
+func (h *c18hist) scriptRootName(results bool, name string, sh c18comp) {
+	var c gotypes.Component
+	if results {
+		h.op("ret", name)
+		h.call("Return", func() { c = h.a.Return(name) })
+	} else {
+		h.op("par", name)
+		h.call("Param", func() { c = h.a.Param(name) })
+	}
+	h.pushComp(c, sh)
+}
+
+func (h *c18hist) scriptIndex(slot, idx int) {
+	var out gotypes.Component
+	if idx < 0 {
+		h.f3b = true
+	}
+	c := h.comps[slot]
+	h.op("nav", itoa(slot), "idx", itoa(idx))
+	h.call("Index", func() { out = c.Index(idx) })
+	h.pushComp(out, h.shadow[slot].nav("idx", idx, ""))
+}
+
+func (h *c18hist) randomBody(limits map[int]int) {
+	target := 1 + h.r.intn(80)
+	if h.r.chance(1, 10) {
+		target = 1 + h.r.intn(6)
+	}
+	// histories start with a function unless the point is to fault
+	if !(h.r.intn(1000) < h.pFault) && h.r.chance(9, 10) {
+		h.genFunction()
+	}
+	h.singleAt = h.r.intn(target)
+	for h.nops < target {
+		if h.single > 0 && h.nops >= h.singleAt {
+			h.genSingle(limits)
+			h.single = 0
+		}
+		h.genOne(limits)
+	}
+	if h.single > 0 {
+		h.genSingle(limits)
 	}
 }
 
@@ -1789,6 +1948,8 @@ func (nopCloser) Close() error { return nil }
 
 type c18result struct {
 	req, resp       string
+	mainReq         string
+	mainResp        string
 	acceptReq       string
 	maxReq, maxResp string
 	class           string
@@ -1801,11 +1962,11 @@ func c18bit(b bool) string {
 	return "0"
 }
 
-func c18run(r *rng, limits map[int]int, stats map[string]int) c18result {
+func c18run(r *rng, limits map[int]int, stats map[string]int, script func(h *c18hist)) c18result {
 	ctx := build.NewContext()
 	h := &c18hist{r: r, a: &c18api{c: ctx}, stats: stats}
 	route := "ctx"
-	if r.chance(1, 4) {
+	if script == nil && r.chance(1, 4) {
 		route = "pkg"
 		h.a.pkg = true
 		old := build.VerifSwapContext(ctx)
@@ -1815,8 +1976,14 @@ func c18run(r *rng, limits map[int]int, stats map[string]int) c18result {
 	// distribution of histories
 	mode := r.intn(100)
 	switch {
-	case mode < 35: // valid
+	case mode < 30: // valid
 		stats["mode_valid"]++
+	case mode < 45: // valid but for one compile-time fault
+		h.single = 1 + r.intn(7)
+		if h.single == 4 && !r.chance(1, 4) {
+			h.single = 1 + r.intn(3)
+		}
+		stats[fmt.Sprintf("mode_single_pass_fault_%d", h.single)]++
 	case mode < 70:
 		h.pFault = pick(r, []int{20, 60, 150, 300})
 		stats["mode_builder_faults"]++
@@ -1851,16 +2018,11 @@ func c18run(r *rng, limits map[int]int, stats map[string]int) c18result {
 	h.kreg = alloc(2, func() reg.Register { return ctx.K() })
 	h.errc = gotypes.NewSignatureVoid().Params().Lookup("harness-placeholder")
 
-	target := 1 + r.intn(80)
-	if r.chance(1, 10) {
-		target = 1 + r.intn(6)
-	}
-	// histories start with a function unless the point is to fault
-	if !(r.intn(1000) < h.pFault) && r.chance(9, 10) {
-		h.genFunction()
-	}
-	for h.nops < target {
-		h.genOne(limits)
+	if script != nil {
+		h.pFault, h.pPassFault, h.single = 0, 0, 0
+		script(h)
+	} else {
+		h.randomBody(limits)
 	}
 	h.fixups()
 	h.closeFn()
@@ -1936,13 +2098,13 @@ func c18run(r *rng, limits map[int]int, stats map[string]int) c18result {
 	if mainPanicked {
 		st = "panic"
 	}
-	resp = append(resp, "s", st, "a", c18bit(asm.Len() > 0), "t", c18bit(stubs.Len() > 0), "d", itoa(diagLines))
 	respLine := strings.Join(resp, " ")
 	if builderPanics > 0 {
 		respLine = "panic@" + h.firstPanic + " " + respLine
 	}
+	mainLine := strings.Join([]string{"s", st, "a", c18bit(asm.Len() > 0), "t", c18bit(stubs.Len() > 0), "d", itoa(diagLines)}, " ")
 
-	out := c18result{req: "c18 " + line, resp: respLine}
+	out := c18result{req: "c18 " + line, resp: respLine, mainReq: "c18main " + line, mainResp: mainLine}
 	ostatus := status
 	if mainPanicked {
 		ostatus = 0
@@ -2015,8 +2177,13 @@ func init() {
 		sizes := map[string]int{}
 		r := newRng(*f.seed)
 		for k := 0; k < *f.n; k++ {
-			res := c18run(r.fork(), limits, stats)
+			var script func(h *c18hist)
+			if k < len(c18scripts) {
+				script = c18scripts[k]
+			}
+			res := c18run(r.fork(), limits, stats, script)
 			o.emit(res.req, res.resp)
+			o.emit(res.mainReq, res.mainResp)
 			o.emit(res.acceptReq, "ok")
 			if res.maxReq != "" {
 				o.emit(res.maxReq, res.maxResp)
